@@ -966,6 +966,10 @@ def wpm_stmt(pm, n):
 from ..selftest import V  # noqa: E402
 
 SELFTEST = [
+    V("WT centre file read with np.loadtxt (seeded C18-m7)", HR, "    data = np.array([[float(x) for x in line.split()] for line in r.readlines()])\n",
+      "    data = np.loadtxt(seedname + \"_wannier_centre_WT_format.dat\")\n", "fire", "R18.1"),
+    V("WT centre file read with np.loadtxt(ndmin=2)", HR, "    data = np.array([[float(x) for x in line.split()] for line in r.readlines()])\n",
+      "    data = np.loadtxt(seedname + \"_wannier_centre_WT_format.dat\", ndmin=2)\n", "silent", "R18.1"),
     V("hr header written in N // 15 + 1 chunks (seeded C18-m5)", HR, "    for i in range(0, system.rvec.nRvec, 15):\n        a = Ndegen[i:min(i + 15, system.rvec.nRvec)]",
       "    for i in range(system.rvec.nRvec // 15 + 1):\n        a = Ndegen[15 * i:15 * (i + 1)]", "fire", "R18.8"),
     V("tb header chunks by ceil division", TB, "    for i in range(0, system.rvec.nRvec, 15):\n        a = Ndegen[i:min(i + 15, system.rvec.nRvec)]",
